@@ -842,6 +842,8 @@ coap_oscore_decrypt_pdu(coap_session_t *session,
   coap_bin_const_t external_aad;
   oscore_sender_ctx_t *snd_ctx = NULL;
   int seq_validated = 0;
+  uint8_t rcvd_piv_buffer[8];
+  coap_bin_const_t rcvd_piv = { 0, NULL };
 #if COAP_CLIENT_SUPPORT
   coap_pdu_t *sent_pdu = NULL;
 #endif /* COAP_CLIENT_SUPPORT */
@@ -1241,6 +1243,10 @@ coap_oscore_decrypt_pdu(coap_session_t *session,
       }
       if (last_seq > rcp_ctx->last_seq)
         rcp_ctx->last_seq = last_seq;
+      /* Remember the Partial IV of this response for the Observe value */
+      memcpy(rcvd_piv_buffer, cose->partial_iv.s, cose->partial_iv.length);
+      rcvd_piv.s = rcvd_piv_buffer;
+      rcvd_piv.length = cose->partial_iv.length;
       /*
        * Requires in COSE object as appropriate
        *   kid (set above)
@@ -1538,14 +1544,22 @@ coap_oscore_decrypt_pdu(coap_session_t *session,
       break;
     case COAP_OPTION_OBSERVE:
       if (!coap_request) {
-        bias = cose->partial_iv.length > 3 ? cose->partial_iv.length - 3 : 0;
-        len = cose->partial_iv.length > 3 ? 3 : cose->partial_iv.length;
+        /*
+         * cose->partial_iv holds the Partial IV of the request (set up for
+         * the AAD); the Observe value comes from the Partial IV of this
+         * response, if it has one (RFC8613 4.1.3.5.2).
+         */
+        const coap_bin_const_t *obs_piv =
+            rcvd_piv.length ? &rcvd_piv : &cose->partial_iv;
+
+        bias = obs_piv->length > 3 ? obs_piv->length - 3 : 0;
+        len = obs_piv->length > 3 ? 3 : obs_piv->length;
         /* Make Observe option reflect last 3 bytes of partial_iv */
         if (!coap_add_option_internal(
                 decrypt_pdu,
                 opt_iter.number,
                 len,
-                cose->partial_iv.s ? &cose->partial_iv.s[bias] : NULL)) {
+                obs_piv->s ? &obs_piv->s[bias] : NULL)) {
           coap_handle_event_lkd(session->context,
                                 COAP_EVENT_OSCORE_INTERNAL_ERROR,
                                 session);
